@@ -1,8 +1,11 @@
 package sim
 
 import (
+	"errors"
 	"fmt"
+	"io"
 	"strings"
+	"unicode/utf8"
 
 	"dsim/ref"
 
@@ -357,5 +360,131 @@ func init() {
 			return fmt.Sprintf("%s of %q (from %s of %s) failed: %v", c.name, r.S[0], p.name, NumOf(a), r.Err)
 		}
 		return checkRoundTrip(a, r.D[0], p.name+" -> "+c.name)
+	}
+}
+
+// simScanState is a simulator-owned fmt.ScanState over a byte string. A read
+// error can be planned at a byte offset; like an io.Reader that returns
+// (n > 0, err), its Token then returns the runes read so far together with
+// the error.
+type simScanState struct {
+	data   []byte
+	pos    int
+	last   int
+	errAt  int // offset at which the next read fails once (-1: never)
+	fired  bool
+	tokens int
+}
+
+func (s *simScanState) ReadRune() (rune, int, error) {
+	if s.pos == s.errAt && !s.fired {
+		s.fired = true
+		return 0, 0, ErrInjected
+	}
+	if s.pos >= len(s.data) {
+		s.last = 0
+		return 0, 0, io.EOF
+	}
+	r, n := utf8.DecodeRune(s.data[s.pos:])
+	s.pos += n
+	s.last = n
+	return r, n, nil
+}
+
+func (s *simScanState) UnreadRune() error {
+	if s.last == 0 {
+		return errors.New("simScanState: nothing to unread")
+	}
+	s.pos -= s.last
+	s.last = 0
+	return nil
+}
+
+func (s *simScanState) SkipSpace() {
+	for s.pos < len(s.data) && s.pos != s.errAt && (s.data[s.pos] == ' ' || s.data[s.pos] == '\t' || s.data[s.pos] == '\n') {
+		s.pos++
+	}
+	s.last = 0
+}
+
+func (s *simScanState) Token(skipSpace bool, f func(rune) bool) ([]byte, error) {
+	s.tokens++
+	if skipSpace {
+		s.SkipSpace()
+	}
+	if f == nil {
+		f = func(r rune) bool { return r != ' ' && r != '\t' && r != '\n' }
+	}
+	var tok []byte
+	for {
+		r, n, err := s.ReadRune()
+		if err == io.EOF {
+			return tok, nil
+		}
+		if err != nil {
+			return tok, err
+		}
+		if !f(r) {
+			s.UnreadRune()
+			return tok, nil
+		}
+		tok = append(tok, s.data[s.pos-n:s.pos]...)
+	}
+}
+
+func (s *simScanState) Width() (int, bool) { return 0, false }
+
+func (s *simScanState) Read([]byte) (int, error) {
+	return 0, errors.New("simScanState: Read is not for Scan methods")
+}
+
+func init() {
+	// ScanState: B[0] = input, I[0] = verb, I[1] = error offset (-1 none),
+	// I[2] = receiver slot. Calls Decimal.Scan directly with a
+	// simulator-owned fmt.ScanState.
+	reg("ScanState", func(x *Ctx, op *Op, r *Result) {
+		st := &simScanState{data: op.bytes(0), errAt: int(op.int(1))}
+		d := x.recv(op.int(2))
+		x.call(r, func() {
+			err := d.Scan(st, rune(op.int(0)))
+			r.err(err)
+			r.dec(*d)
+			r.bool(st.fired)
+		})
+	}).Check = func(x *Ctx, op *Op, r *Result) string {
+		if s := noPanic(r); s != "" {
+			return s
+		}
+		switch rune(op.int(0)) {
+		case 'e', 'E', 'f', 'F', 'g', 'G', 'v':
+		default:
+			if r.Err == nil {
+				return fmt.Sprintf("Scan with verb %q succeeded", rune(op.int(0)))
+			}
+			return ""
+		}
+		in := strings.TrimLeft(string(op.bytes(0)), " \t\n")
+		tok := in
+		if i := strings.IndexAny(tok, " \t\n"); i >= 0 {
+			tok = tok[:i]
+		}
+		if !scanAlphabet(tok) {
+			return ""
+		}
+		if tok == "" {
+			if r.Err == nil {
+				return "Scan of empty input succeeded"
+			}
+			return ""
+		}
+		if r.Err != nil && r.B[0] {
+			return "" // a read error was injected and an error came back
+		}
+		lit := ref.ParseLiteral(tok, ref.LitOpts{NoLongInf: true})
+		s := judgeParse(tok, lit, x.mode, r.Err, r.Err == nil, r.D[0], false)
+		if s != "" && r.B[0] {
+			s += fmt.Sprintf(" (the ScanState reported a read error at offset %d)", op.int(1))
+		}
+		return s
 	}
 }
